@@ -332,10 +332,6 @@ theorem stepLoc_id (T : Tables) (l : Loc) (id : Nat) (text : Bytes) : (stepLoc T
   · rfl
   · split <;> rfl
 
-def countNL : Bytes → Nat
-  | [] => 0
-  | b :: r => (if b == 0x0A then 1 else 0) + countNL r
-
 theorem skipLoc_line : ∀ (b : Bytes) (line col : Nat), (skipLoc b line col).1 = line + countNL b
   | [], line, col => by simp [skipLoc, countNL]
   | b :: r, line, col => by
@@ -575,5 +571,35 @@ theorem lexAllRaw_real_line (src : Bytes) (pre : List Tok) (t : Tok) (post : Lis
     (h : (lexAllRaw src).1 = pre ++ t :: post) : t.line = 1 + countNL (pre.map Tok.text).flatten := by
   rw [← sum_lineAdvance genTables pre]
   exact lexAllRaw_line src pre t post h
+
+/-- every token of the stream (white space and comments included) is what ONE
+call of `nextToken` returns on a suffix of the source -/
+theorem lexRawFuel_mem (T : Tables) : ∀ (f : Nat) (src : Bytes) (l : Loc) (t : Tok),
+    t ∈ (lexRawFuel T f src l).1 → ∃ head, nextTokenT T head = (t.id, t.text) := by
+  intro f
+  induction f with
+  | zero => intro src l t h; simp [lexRawFuel_zero] at h
+  | succ f ih =>
+    intro src l t h
+    cases src with
+    | nil => simp [lexRawFuel_nil] at h
+    | cons c r =>
+      rw [lexRawFuel_cons] at h
+      have hhead : ∀ t', t' = (stepLoc T l (nextTokenT T (c :: r)).1 (nextTokenT T (c :: r)).2).1 →
+          ∃ head, nextTokenT T head = (t'.id, t'.text) := by
+        intro t' e
+        exact ⟨c :: r, by rw [e, stepLoc_id, stepLoc_text]⟩
+      split at h
+      · simp only [List.mem_singleton] at h
+        exact hhead t h
+      · simp only [List.mem_cons] at h
+        rcases h with h | h
+        · exact hhead t h
+        · exact ih _ _ t h
+
+theorem lexAll_mem (src : Bytes) (t : Tok) (h : t ∈ lexAll src) :
+    ∃ head, nextToken head = (t.id, t.text) := by
+  have : t ∈ (lexAllRaw src).1 := (List.mem_filter.mp h).1
+  exact lexRawFuel_mem genTables _ src startLoc t this
 
 end Martian.Tokenizer
